@@ -75,6 +75,13 @@ func (x *xts) CryptBlocks(dst, src []byte) {
 			encryptSm4Xts(&x.b.enc[0], &x.tweak, dst, src)
 		}
 	} else {
+		if r := len(src) % BlockSize; r != 0 && len(src) >= 2*BlockSize+r {
+			// the ciphertext-stealing tail needs the last full block: process the
+			// leading whole blocks first, then the final BlockSize+r bytes.
+			n := len(src) - BlockSize - r
+			x.CryptBlocks(dst[:n], src[:n])
+			dst, src = dst[n:], src[n:]
+		}
 		if x.isGB {
 			decryptSm4XtsGB(&x.b.dec[0], &x.tweak, dst, src)
 		} else {
